@@ -51,6 +51,7 @@ def projects(draw: Any, with_star: bool = True, with_class_imports: bool = True)
     public: Dict[str, List[Tuple[str, str]]] = {}   # module -> [(name, kind)] names importable from it (own defs + re-imported names: chains)
     own_defs: Dict[str, List[str]] = {}
     must: Dict[str, List[str]] = {}
+    must_star: Dict[str, List[str]] = {}
     pending_must: List[Tuple[str, str, str]] = []   # (module, alias, target module): resolved once the target's definitions are known
     for mi, m in enumerate(layout):
         body: List[Dict[str, Any]] = []
@@ -62,6 +63,7 @@ def projects(draw: Any, with_star: bool = True, with_class_imports: bool = True)
         names_here: List[Tuple[str, str]] = []
         class_aliases: List[str] = []
         mod_alias_target: Dict[str, str] = {}
+        star_names: set = set()   # names a star import of this module may (re)bind: a second, implicit binding
         # imports
         for _ in range(draw(st.integers(0, 4)) if earlier else 0):
             tgt = draw(st.sampled_from(earlier))
@@ -115,6 +117,7 @@ def projects(draw: Any, with_star: bool = True, with_class_imports: bool = True)
                 # not from an ancestor package: which of its submodules are bound there at that moment (never the importing
                 # module itself) depends on import timing, not on the source
                 body.append({'k': 'import', 'text': 'from %s import *' % tgt})
+                star_names.update(n for n, _k in public.get(tgt, []))
         # definitions
         for _ in range(draw(st.integers(1, 3))):
             kind = draw(st.sampled_from(['class', 'class', 'func', 'var']))
@@ -153,6 +156,26 @@ def projects(draw: Any, with_star: bool = True, with_class_imports: bool = True)
                         d['cimports'].append({'text': 'import %s as %s' % (tgt, al), 'name': al})
                         d['cmust'] = d.get('cmust', []) + ['%s.%s' % (al, x) for x in own_defs.get(tgt, [])]
                     class_aliases.append(al)
+                # imports in the body of the class nested in it (relative ones count their level from the module's package, however
+                # deep the class is)
+                d['nimports'] = []
+                if with_class_imports and d['nested'] and earlier and draw(st.integers(0, 1)) == 0:
+                    tgt = draw(st.sampled_from(earlier))
+                    j = nxt()
+                    r = relative(layout, m, tgt)
+                    if r is not None and public.get(tgt) and draw(st.booleans()):
+                        nm, _kd = draw(st.sampled_from(public[tgt]))
+                        d['nimports'].append({'text': 'from %s%s import %s as ni%d' % ('.' * r[0], r[1], nm, j), 'name': 'ni%d' % j})
+                        if nm in own_defs.get(tgt, []):
+                            d['nmust'] = ['ni%d' % j]
+                    elif r is not None and r[1]:
+                        level, rem = r
+                        par, _, leaf = rem.rpartition('.')
+                        d['nimports'].append({'text': 'from %s%s import %s as nm%d' % ('.' * level, par, leaf, j), 'name': 'nm%d' % j})
+                        d['nmust'] = ['nm%d.%s' % (j, x) for x in own_defs.get(tgt, [])]
+                    else:
+                        d['nimports'].append({'text': 'import %s as nm%d' % (tgt, j), 'name': 'nm%d' % j})
+                        d['nmust'] = ['nm%d.%s' % (j, x) for x in own_defs.get(tgt, [])]
                 body.append(d)
                 names_here.append((d['name'], 'class'))
             elif kind == 'func':
@@ -217,15 +240,21 @@ def projects(draw: Any, with_star: bool = True, with_class_imports: bool = True)
         for n, _k in names_here:
             counts[n] = counts.get(n, 0) + 1
         public[m] = [(n, k) for n, k in names_here if k != 'module' and counts[n] == 1]
-        must[m] = [x for x in must.get(m, []) if counts.get(x.split('.')[0], 0) == 1]
+        once = [x for x in must.get(m, []) if counts.get(x.split('.')[0], 0) == 1]
+        must[m] = [x for x in once if x.split('.')[0] not in star_names]
+        # also bound (to the same object) by a star import of a module that re-imports it: must resolve too, but pydoctor does
+        # not follow the chain of aliases this leaves in its import map (the root cause of finding F31)
+        must_star[m] = [x for x in once if x.split('.')[0] in star_names]
         for b in body:
             if b['k'] == 'class' and b.get('cmust'):
                 must[m + '.' + b['name']] = b['cmust']
+            if b['k'] == 'class' and b.get('nmust'):
+                must[m + '.' + b['name'] + '.Inner'] = b['nmust']
     for m, alias, tgt in pending_must:
         if sum(1 for n, _k in [(b.get('name'), 0) for mm in mods if mm['name'] == m for b in mm['body']] if n == alias) == 0:
             must.setdefault(m, []).append(alias)
             must[m].extend('%s.%s' % (alias, x) for x in own_defs.get(tgt, []))
-    return {'layout': layout, 'mods': mods, 'must': must}
+    return {'layout': layout, 'mods': mods, 'must': must, 'must_star': must_star}
 
 
 def to_files(proj: Dict[str, Any]) -> Dict[str, str]:
@@ -247,6 +276,8 @@ def to_files(proj: Dict[str, Any]) -> Dict[str, str]:
                 if b['nested']:
                     lines.append('    class Inner:')
                     lines.append('        """ID:%d"""' % b['nested'])
+                    for ni in b.get('nimports', []):
+                        lines.append('        ' + ni['text'])
             elif b['k'] == 'func':
                 lines.append('def %s():' % b['name'])
                 lines.append('    """ID:%d"""' % b['id'])
